@@ -144,7 +144,23 @@ class FTPProcessorSession(BaseProcessorSession):
             is_file = False
             self._glob_pattern = urllib.parse.unquote(filename)
         else:
-            is_file = yield from self._prepare_request_file_vs_dir(request)
+            try:
+                is_file = yield from \
+                    self._prepare_request_file_vs_dir(request)
+            except REMOTE_ERRORS as error:
+                # Fetching the listing of the parent directory failed.
+                self._log_error(request, error)
+                self._result_rule.handle_error(self._item_session, error)
+
+                wait_time = self._result_rule.get_wait_time(
+                    self._item_session, error=error
+                )
+
+                if wait_time:
+                    _logger.debug('Sleeping {0}.', wait_time)
+                    yield from asyncio.sleep(wait_time)
+
+                return
 
             self._file_writer_session.process_request(request)
 
